@@ -253,6 +253,9 @@ pub struct ConsumerPlan {
     pub ops: Vec<COp>,
     pub fin: Fin,
     pub single: bool,
+    /// position among `ops` at which the consumer calls add_stream and hands the new stream to a
+    /// child thread that drains it (only used when the consumer is the sole handle of its stream)
+    pub fork: Option<(u8, DrainHow)>,
 }
 
 #[derive(Clone, Debug)]
@@ -282,6 +285,8 @@ pub struct TrafficParams {
     pub gates: bool,
     pub sink_tasks: bool,
     pub blocking_only: bool,
+    /// out of 8: share of consumers that add a stream during traffic
+    pub fork: u32,
 }
 
 impl Default for TrafficParams {
@@ -301,6 +306,7 @@ impl Default for TrafficParams {
             gates: false,
             sink_tasks: false,
             blocking_only: false,
+            fork: 0,
         }
     }
 }
@@ -370,10 +376,19 @@ fn consumer_plan(p: TrafficParams, may_leave: bool) -> BoxedStrategy<ConsumerPla
         ]
         .boxed()
     } else {
-        (drain, 0u8..3).prop_map(|(h, e)| Fin::Drain(h, e)).boxed()
+        (drain.clone(), 0u8..3).prop_map(|(h, e)| Fin::Drain(h, e)).boxed()
     };
-    (vec(op, 0..6), fin, any::<bool>())
-        .prop_map(|(ops, fin, single)| ConsumerPlan { ops, fin, single })
+    let fork = if p.fork > 0 {
+        prop_oneof![
+            (8 - p.fork.min(7)) => Just(None),
+            p.fork.min(7) => (0u8..6, drain.clone()).prop_map(Some),
+        ]
+        .boxed()
+    } else {
+        Just(None).boxed()
+    };
+    (vec(op, 0..6), fin, any::<bool>(), fork)
+        .prop_map(|(ops, fin, single, fork)| ConsumerPlan { ops, fin, single, fork })
         .boxed()
 }
 
@@ -399,14 +414,16 @@ pub fn traffic_plan(q: BoxedStrategy<QCfg>, p: TrafficParams, sched_len: usize) 
             prop_oneof![7 => Just(false), 1 => Just(true)],
         )
             .prop_map(|(q, prefill, producers, mut streams, sched, weak_cas)| {
-                // thread budget: main + producers + consumers <= MAX_THREADS
-                let mut budget = MAX_THREADS - 1 - producers.len();
+                // thread budget: main + producers + consumers (+ one child per forking consumer)
+                // <= MAX_THREADS
+                let forks = streams.iter().filter(|s| s.len() == 1 && s[0].fork.is_some()).count().min(2);
+                let mut budget = MAX_THREADS - 1 - producers.len() - forks;
                 for s in streams.iter_mut() {
                     let keep = s.len().min(budget.max(1));
                     s.truncate(keep.max(1));
                     budget = budget.saturating_sub(s.len());
                 }
-                let mut total = 0;
+                let mut total = forks;
                 streams.retain(|s| {
                     total += s.len();
                     total + producers.len() + 1 <= MAX_THREADS
@@ -469,6 +486,9 @@ pub fn build_traffic(plan: &TrafficPlan, opts: &ExecOpts) -> Scenario {
         progs.push(Prog { ops, ret: false });
     }
     // consumers: hand each its receiver; table entries are removed as they are handed out
+    let consumers_total: usize = plan.streams.iter().map(|s| s.len()).sum();
+    let mut forks_left = MAX_THREADS.saturating_sub(1 + np + consumers_total).min(2);
+    let mut fork_children: Vec<(usize, DrainHow)> = Vec::new();
     for (s, cons) in plan.streams.iter().enumerate() {
         for cp in cons {
             let prog_no = progs.len() as u8;
@@ -476,10 +496,19 @@ pub fn build_traffic(plan: &TrafficPlan, opts: &ExecOpts) -> Scenario {
             main.push(Op::Spawn { prog: prog_no, tx: vec![], rx: vec![sel(idx, rx_table.len())] });
             rx_table.remove(idx);
             let mut ops = Vec::new();
-            if cp.single {
+            // a consumer that is the only handle of its (broadcast) stream may add a stream
+            // during traffic; at most two such forks per scenario
+            let do_fork = cons.len() == 1 && q.flavour == Flavour::Broadcast && forks_left > 0 && cp.fork.is_some();
+            let fork_at = cp.fork.map(|f| (f.0 as usize).min(cp.ops.len())).unwrap_or(0);
+            if cp.single && !do_fork {
                 ops.push(Op::IntoSingle { rx: 0 });
             }
-            for o in &cp.ops {
+            for (oi, o) in cp.ops.iter().enumerate() {
+                if do_fork && oi == fork_at {
+                    fork_children.push((progs.len(), cp.fork.unwrap().1));
+                    ops.push(Op::AddStream { rx: 0 });
+                    ops.push(Op::Spawn { prog: 0, tx: vec![], rx: vec![sel(1, 2)] });
+                }
                 match o {
                     COp::TryRecv => ops.push(Op::TryRecv { rx: 0 }),
                     COp::Recv => ops.push(Op::RecvN { rx: 0, k: 1, view: false }),
@@ -494,12 +523,33 @@ pub fn build_traffic(plan: &TrafficPlan, opts: &ExecOpts) -> Scenario {
                     COp::IntoMulti => ops.push(Op::IntoMulti { rx: 0 }),
                 }
             }
+            if do_fork && fork_at >= cp.ops.len() {
+                fork_children.push((progs.len(), cp.fork.unwrap().1));
+                ops.push(Op::AddStream { rx: 0 });
+                ops.push(Op::Spawn { prog: 0, tx: vec![], rx: vec![sel(1, 2)] });
+            }
             match &cp.fin {
                 Fin::Drain(how, extra) => ops.push(Op::Drain { rx: 0, how: *how, extra: *extra }),
                 Fin::Leave => {}
             }
+            if do_fork {
+                forks_left -= 1;
+                ops.push(Op::JoinAll);
+            }
             progs.push(Prog { ops, ret: false });
         }
+    }
+    // children of forking consumers: drain the stream they were handed
+    for (parent, how) in fork_children {
+        let child = progs.len() as u8;
+        for o in progs[parent].ops.iter_mut() {
+            if let Op::Spawn { prog, .. } = o {
+                if *prog == 0 {
+                    *prog = child;
+                }
+            }
+        }
+        progs.push(Prog { ops: vec![Op::Drain { rx: 0, how, extra: 0 }], ret: false });
     }
     main.push(Op::JoinAll);
     progs[0].ops = main;
@@ -529,6 +579,8 @@ pub struct AddStreamPlan {
     pub other_stream: bool,
     pub hows: Vec<DrainHow>,
     pub second_add: bool,
+    /// add_stream + drop rounds performed by the witness / other-stream threads before they drain
+    pub side_adds: (u8, u8),
     pub sched: Schedule,
 }
 
@@ -557,9 +609,10 @@ pub fn addstream_plan() -> BoxedStrategy<AddStreamPlan> {
         prop_oneof![3 => Just(false), 1 => Just(true)],
         vec(drain_how(), 5),
         prop_oneof![3 => Just(false), 1 => Just(true)],
+        (prop_oneof![2 => Just(0u8), 1 => Just(1u8), 1 => Just(2u8)], prop_oneof![2 => Just(0u8), 1 => Just(1u8), 1 => Just(2u8)]),
         schedule(500),
     )
-        .prop_map(|(q, prefill, producers, parent_handles, pre_recv, adder_single, sibling_pre, other_stream, hows, second_add, sched)| AddStreamPlan {
+        .prop_map(|(q, prefill, producers, parent_handles, pre_recv, adder_single, sibling_pre, other_stream, hows, second_add, side_adds, sched)| AddStreamPlan {
             q,
             prefill: prefill.min(q.n() as u8),
             producers,
@@ -570,6 +623,7 @@ pub fn addstream_plan() -> BoxedStrategy<AddStreamPlan> {
             other_stream,
             hows,
             second_add,
+            side_adds,
             sched,
         })
         .boxed()
@@ -615,7 +669,15 @@ pub fn build_addstream(pl: &AddStreamPlan, opts: &ExecOpts) -> Scenario {
         let p = progs.len() as u8;
         let s = take(&mut table, "W");
         main.push(Op::Spawn { prog: p, tx: vec![], rx: vec![s] });
-        progs.push(Prog { ops: vec![Op::Drain { rx: 0, how: pl.hows[0], extra: 0 }], ret: false });
+        // the witness may itself add (and immediately drop) streams, racing with the adder's
+        // replacement of the stream list
+        let mut ops = Vec::new();
+        for _ in 0..pl.side_adds.0 {
+            ops.push(Op::AddStream { rx: 0 });
+            ops.push(Op::DropRx { rx: 65535 });
+        }
+        ops.push(Op::Drain { rx: 0, how: pl.hows[0], extra: 0 });
+        progs.push(Prog { ops, ret: false });
     }
     // adder + child
     {
@@ -672,7 +734,13 @@ pub fn build_addstream(pl: &AddStreamPlan, opts: &ExecOpts) -> Scenario {
         let p = progs.len() as u8;
         let s = take(&mut table, "O");
         main.push(Op::Spawn { prog: p, tx: vec![], rx: vec![s] });
-        progs.push(Prog { ops: vec![Op::Drain { rx: 0, how: pl.hows[4], extra: 0 }], ret: false });
+        let mut ops = Vec::new();
+        for _ in 0..pl.side_adds.1 {
+            ops.push(Op::AddStream { rx: 0 });
+            ops.push(Op::DropRx { rx: 65535 });
+        }
+        ops.push(Op::Drain { rx: 0, how: pl.hows[4], extra: 0 });
+        progs.push(Prog { ops, ret: false });
     }
     main.push(Op::JoinAll);
     progs[0].ops = main;
